@@ -1128,6 +1128,56 @@ func init() {
 			}, nil
 		}
 	}
+	// C09/C12: a derived profile that re-declares a base claim (same key, same member name) in its outer struct
+	for _, prop := range []string{"C09", "C12"} {
+		prop := prop
+		Scenarios[strings.ToLower(prop)+".shadowing-profile"] = func() (choice.Scenario, func() any) {
+			return func(c *choice.Ctx) {
+				a := genValidOpt(c, kindP2, false, true)
+				a.Canon, a.Profile, a.VSI = ExtShadowName, sp(ExtShadowName), nil
+				x, err := buildBySetters(a)
+				if err != nil {
+					c.Failf(prop+":shadowing-profile:build", "%v", err)
+					return
+				}
+				if c.Choose("service-indicator", 2) == 0 {
+					if err := x.SetVSI("https://verifier.example/x"); err != nil {
+						c.Failf(prop+":shadowing-profile:setter", "%v", err)
+						return
+					}
+				}
+				encStats.StateStr("shadow" + a.String() + fmt.Sprint(c.Choices))
+				encStats.Trans.Add(2)
+				var y psatoken.IClaims
+				var enc []byte
+				if prop == "C09" {
+					if enc, err = psatoken.EncodeClaimsToCBOR(x); err == nil {
+						y, err = psatoken.DecodeClaimsFromCBOR(enc)
+					}
+				} else {
+					if enc, err = psatoken.EncodeClaimsToJSON(x); err == nil {
+						y, err = psatoken.DecodeClaimsFromJSON(enc)
+					}
+				}
+				if err != nil {
+					c.Failf(prop+":shadowing-profile:error", "%v", err)
+					return
+				}
+				if g1, g2 := getterVector(x), getterVector(y); g1 != g2 {
+					c.Failf(prop+":identity:shadowing-profile", "getters differ after the round trip\n x %s\n y %s", g1, g2)
+				}
+				var enc2 []byte
+				if prop == "C09" {
+					enc2, err = psatoken.EncodeClaimsToCBOR(y)
+				} else {
+					enc2, err = psatoken.EncodeClaimsToJSON(y)
+				}
+				if err != nil || !bytes.Equal(enc, enc2) {
+					c.Failf(prop+":byte-stability:shadowing-profile", "%v\n%x\n%x", err, enc, enc2)
+				}
+			}, nil
+		}
+	}
 	// C12: registered profiles whose NAME contains characters the JSON encoder escapes
 	Scenarios["c12.escaped-profile-name"] = func() (choice.Scenario, func() any) {
 		names := []string{"http://example.com/psa?variant=a&rev=2", "http://example.com/psa/it's", "http://example.com/psa?q=<1>"}
@@ -1207,10 +1257,12 @@ func init() {
 				exploreChoiceOpts(r, "c12.after-prior-calls", 2, dl, 1)
 				exploreChoiceOpts(r, "c12.escaped-profile-name", 2, dl, 1)
 				exploreChoiceOpts(r, "c12.same-name-claim-types", 1, dl, 1)
+				exploreChoice(r, "c12.shadowing-profile", 2, dl)
 			} else {
 				if prop == "C09" {
 					exploreChoice(r, "c09.ext-wide", -1, dl)
 					exploreChoiceOpts(r, "c09.same-name-claim-types", 1, dl, 1)
+					exploreChoice(r, "c09.shadowing-profile", 2, dl)
 					for kind := 0; kind < 2; kind++ {
 						exploreChoice(r, fmt.Sprintf("c09.decode-change-roundtrip.%s", kindNames[kind]), b, dl)
 						exploreChoice(r, fmt.Sprintf("c09.method-decode-after-rejected.%s", kindNames[kind]), b, dl)
